@@ -91,7 +91,7 @@ theorem table_ok : TableOk Gen.prog reachInputs reachAt where
     · rw [hcc] at hin hall
       exact ⟨repOf c, hin, fun st => hall st (St.mem_all st)⟩
 
-theorem root_in_reach : (reachAt .stateRoot).contains ([], [], 0, true, [], 0) = true := by decide
+theorem root_in_reach : (reachAt .stateRoot).contains ([], [], 0, true, [], 0, false) = true := by decide
 
 /-- **C12 (no crash), every file, every oracle, every fuel**: however a scan of a file from `stateRoot`
     ends, it does not end in a crash of the scanner: no panic site of the model is reached (pop of an
@@ -112,6 +112,18 @@ theorem C12_lexemes_inside_file (env : Env) (fuel n : Nat) (l : Lexeme)
     0 ≤ l.b ∧ l.b ≤ l.e + 1 ∧ l.e < env.size :=
   (scanFrom_sound env Gen.prog reachInputs reachAt table_ok fuel n (Sc.init .stateRoot) []
     (good_init env reachAt .stateRoot root_in_reach) (by simp)).2 l h
+
+/-- **C12 (order), every file, every oracle**: whenever the scanner reports a parameter, an annotation or
+    a body (schema, text, enum) lexeme, it has reported a keyword lexeme before, and no closing
+    parenthesis since: the ghost phase `ph` of the scanner model (set by a Keyword lexeme, cleared by a
+    closing parenthesis) is set.  Stated for one call of `Next` from any covered state. -/
+theorem C12_lexeme_order (env : Env) (fuel : Nat) (s s' : Sc St) (l : Lexeme) (hg : Good env reachAt s)
+    (h : next env Gen.prog fuel s = .ok (some l, s')) :
+    (phNeeds l.ty = true → s.ph = true) ∧ s'.ph = phAfter s.ph l.ty ∧ Good env reachAt s' := by
+  have := next_sound env Gen.prog reachInputs reachAt table_ok fuel s hg
+  rw [h] at this
+  obtain ⟨hg', hwf, _⟩ := this
+  exact ⟨(hwf l rfl).2.1, (hwf l rfl).2.2, hg'⟩
 
 /-- **C12 (stack discipline), every file, every oracle, every fuel**: in particular the scanner's two
     stacks are used in a balanced way — begin and end events always pair up to well-nested lexemes. -/
